@@ -260,6 +260,17 @@ func lemmaTickMonotone(intervalStart uint64, intervalsPerDay uint32, t1, t2 uint
 //@ requires #idx: 0 <= i && i < len(tgl) && 0 <= j && j < len(tgl)
 //@ ensures #ascending: result == (tgl[i] < tgl[j])
 
+// diskReplayState: the replay state of the last status record that WriteStatus reported as written
+//@ ghost var diskReplayState int
+
+//@ func (*WALFileType).WriteStatus
+//@ props C34 C05
+//@ option noimplicit
+//@ ghostmod ghost:diskReplayState
+//@ ensures #fields: wf.ReplayState == replayState && wf.FileStatus == fileStatus
+// typestate (assumed at callers): a nil result means the status record carrying replayState reached the file
+//@ marks #written: result == nil ==> diskReplayState == replayState
+
 //@ func (*WALFileType).Replay
 //@ props C06 C05 C01 C04 C03 C34 C35
 //@ marks #replayed: (result == nil && !dryRun) ==> replayedOK(wf)
@@ -275,6 +286,10 @@ func lemmaTickMonotone(intervalStart uint64, intervalsPerDay uint32, t1, t2 uint
 //@ loop 2 invariant #onlyValid: forallint(k, pattern(tgData[k]), (in(k, tgData) && tgData[k] != nil) ==> (tgValid(base(tgData[k]), len(tgData[k])) && len(tgData[k]) >= 8))
 //@ loop 3 invariant #idx: 0 <= iter0 && iter0 <= len(sortedTGIDs)
 //@ loop 3 invariant #sortedBeforeApply: sortedAsc(base(sortedTGIDs), len(sortedTGIDs))
+// the apply loop goes on to the next transaction group only after the previous one was applied without error
+//@ loop 3 step #noFailureIgnored: ret_replayTGData == nil
+// success of a real replay means the REPLAYED status record was written
+//@ exit #markedReplayed: (result == nil && !dryRun) ==> diskReplayState == wal.REPLAYED
 
 // ---------------------------------------------------------------------------------------------
 // C16 (writer side): the auto-create path of WriteCSM hands AddTimeBucket a path derived from the same key
@@ -335,6 +350,9 @@ func lemmaTickMonotone(intervalStart uint64, intervalsPerDay uint32, t1, t2 uint
 //@ option noimplicit
 //@ loop 0 invariant #hdr: 0 <= i && i <= WTCount && len(tgSerialized) >= 16 && sle64(tgSerialized, 0) == tgID
 //@ loop 0 invariant #cnt: sle64(tgSerialized, 8) == WTCount
+// the buffer handed to the primary writer is offset (8) + index (8) + payload, and the data shapes follow it in the record
+//@ loop 0 step #primaryBuffer: bufferSize == 16 + len(commands[prev(i)].Data)
+//@ loop 0 step #shapesAppended: len(tgSerialized) == oStart + bufferSize + len(ret_DSVToBytes_0)
 //@ ensures #id: len(tgSerialized2) >= 16 && sle64(tgSerialized2, 0) == tgID
 //@ ensures #count: sle64(tgSerialized2, 8) == len(commands)
 
@@ -515,15 +533,24 @@ func lemmaTickMonotone(intervalStart uint64, intervalsPerDay uint32, t1, t2 uint
 //@ props C03
 //@ option noimplicit
 //@ loop 0 invariant #idx: 0 <= iter0 && iter0 <= rangelen
+//@ loop 0 invariant #appliedSoFar: primaryWrites == old(primaryWrites) + iter0
 //@ exit #openFailureTolerated: err2 != nil ==> typeis(err, "@/executor/wal.ReplayError")
+// success means every write set of the transaction group was applied and the checkpoint was completed
+//@ ensures #appliesAll: err == nil ==> primaryWrites == old(primaryWrites) + len(wtSets)
+//@ ensures #checkpointed: (err == nil && len(wtSets) > 0 && tgID != 0) ==> wf.lastCommittedTGID == 0
 // the same for a failure caused by the contents of the data file (a crash between the data write and the index write
 // of a variable-length interval leaves an index record pointing into overwritten bytes)
 //@ exit #contentErrorTolerated: (err != nil && fileContentError(err)) ==> typeis(err, "@/executor/wal.ReplayError")
 
+// primaryWrites: number of write sets applied to primary data files so far
+//@ ghost var primaryWrites int
+
 //@ func WriteBufferToFile
 //@ trusted "one WriteAt on the data file: fails only with an I/O error"
-//@ modifies ghost:primaryDirty
+//@ modifies ghost:primaryDirty ghost:primaryWrites
 //@ ensures !fileContentError(result)
+//@ ensures #applied: result == nil ==> primaryWrites == old(primaryWrites) + 1
+//@ ensures #monotone: primaryWrites >= old(primaryWrites)
 
 // C09: the variable-length append sorts the merged records (old block + new rows) by their interval ticks before it
 // writes them back. The sorter must cover the whole merged buffer: as many records as the buffer holds.
@@ -556,7 +583,9 @@ func lemmaTickMonotone(intervalStart uint64, intervalsPerDay uint32, t1, t2 uint
 //@ props C09
 //@ option noimplicit
 //@ assumepre executor.NewByIntervalTicks.recLen "catalog invariant: the variable record length of a bucket is positive"
-//@ modifies ghost:primaryDirty
+//@ modifies ghost:primaryDirty ghost:primaryWrites
+// typestate (assumed at callers, the function itself cannot touch ghost state): a nil result means the write set was applied
+//@ marks #applied: (result == nil ==> primaryWrites == old(primaryWrites) + 1) && primaryWrites >= old(primaryWrites)
 
 
 //@ func (*WALCleaner).CleanupOldWALFiles
